@@ -1222,6 +1222,8 @@ class Interp:
                 return ('bin', 'Eq', v, pv)
             if pe.get('defkind', '').startswith('Ctor'):
                 return ('is', v, hirq.short_def(pe.get('ctor_of') or pe.get('def') or pe.get('text', '?')))
+        if k == 'PRange' and range_bounds(p) is not None:
+            return ('matches', v, 'range %s..=%s' % range_bounds(p))      # two range arms over one scrutinee are two different tests
         return ('matches', v, pat_key(p))
 
     def is_variant_pat(self, p):
@@ -1353,6 +1355,25 @@ class Interp:
                 # a literal against a range of literals is decided exactly
                 ok = (lo is None or lo['v'] <= v[1]) and (hi is None or v[1] < hi['v'] + (1 if 'Included' in (p.get('end') or '') else 0))
                 return [('yes' if ok else 'no', st)]
+            b = range_bounds(p)
+            if b is not None:
+                # a symbolic integer against a range of literals is the comparison(s) it amounts to; a bound that is the type's own
+                # (`0..=127` for an unsigned scrutinee) is no test at all.  One remaining bound: that comparison is the atom (so the arm
+                # and an `if` with the same test are the same path condition); two: one atom that names both bounds.
+                lo_v, hi_v = b
+                rng = INT_RANGE.get(hirq.strip_refs(p.get('ty') or ''))
+                if rng is not None and lo_v is not None and lo_v <= rng[0]:
+                    lo_v = None
+                if rng is not None and hi_v is not None and hi_v >= rng[1]:
+                    hi_v = None
+                if lo_v is None and hi_v is None:
+                    return [('yes', st)]
+                if lo_v is None or hi_v is None:
+                    atom = ('bin', 'Le', v, ('lit', hi_v)) if lo_v is None else ('bin', 'Ge', v, ('lit', lo_v))
+                    kn = st.known(atom)
+                    if kn is not None:
+                        return [('yes' if kn else 'no', st)]
+                    return [('maybe', st.assume(atom, True))]
             return [('maybe', st)]
         if k == 'PGuard':
             return [('maybe' if kind == 'yes' else kind, s) for kind, s in self.match(p['pat'], v, st)]
@@ -1393,6 +1414,21 @@ class Interp:
 
 # ---------------------------------------------------------------------------------------
 # term helpers
+
+def range_bounds(p):
+    """(lo, hi) - both inclusive, None for an open end - of a range pattern whose bounds are integer literals; None otherwise"""
+    lo, hi = p.get('lo'), p.get('hi')
+    vals = []
+    for b_ in (lo, hi):
+        if b_ is None:
+            vals.append(None)
+        elif b_.get('k') == 'PLit' and isinstance(b_.get('v'), int) and not isinstance(b_.get('v'), bool):
+            vals.append(-b_['v'] if b_.get('neg') else b_['v'])
+        else:
+            return None
+    if vals[1] is not None and 'Included' not in (p.get('end') or ''):
+        vals[1] -= 1
+    return tuple(vals)
 
 def tuple_elem(v, i):
     if v[0] == 'tuple' and i < len(v[1]):
